@@ -51,7 +51,7 @@ func (w *World) CheckFrameAndTags(o *Obs) []Violation {
 				continue
 			}
 			for _, cu := range w.Types[i.Type].Custom {
-				if cu.Tag == sc.Tag && cu.Exported {
+				if cu.Tag == sc.Tag && cu.Exported && (cu.Via != "handler" || sc.Handler) {
 					want[recKey(w.P.NameOf(i), cu.Field, cu.Val, cu.Args)]++
 				}
 			}
